@@ -86,8 +86,12 @@ def c19_side_condition(req, tick, accepted, is_buy):
 
 
 def snap_market(m, U):
-    """Projection of the observable state of a Market (public getters, priority_queue, best orders)."""
-    u = U.u
+    """Projection of the observable state of a Market (public getters, priority_queue, best orders).
+    Values that are not on the unit grid (only possible if an off-grid price was accepted) are logged as -1: the
+    trace specification then reports the mismatch instead of the harness failing."""
+    def u(x):
+        k = U.u(x, soft=True)
+        return -1 if k is None else k
     book = sorted([[o.order_id, o.volume] for o in m.buy_order_book.priority_queue + m.sell_order_book.priority_queue])
     bb, bs = m.buy_order_book.get_best_order(), m.sell_order_book.get_best_order()
     # the order in which a matching round would pop the queues (heappop on COPIES; the book is not touched)
